@@ -97,8 +97,11 @@ func runC06(r *core.Run, tier string) {
 		}
 		files := map[string]string{"canonical.fo": cases[j.prog].src, "layout.fo": j.src, "canonical_gen.go": c0.gen, "layout_gen.go": rs.gen, "diag.txt": rs.diag}
 		switch {
+		case c0.exit != 0 && rs.exit == 0:
+			// the canonical layout is rejected but this layout of the same program is accepted
+			r.Violate("layout-acceptance-differs:"+key, "a re-layout is accepted while the canonical layout of the same program is rejected: "+oneLineN(c0.diag, 200), files)
 		case c0.exit != 0:
-			// the canonical layout itself is rejected: C01's business; not judged here
+			// every layout seen so far is rejected like the canonical one: C01's business; not judged here
 			r.Count("canonical_rejected_not_judged", 1)
 		case rs.exit == 97:
 			r.Violate("h2-invariant:"+key, "root-boundary invariant violated under a re-layout: "+oneLineN(rs.diag, 200), files)
